@@ -2,7 +2,7 @@
    Which of them are proved, proved in an exact-but-different form, or refuted: see Properties.v,
    PropertiesExit.v / PropertiesExitRefuted.v and notes/C13.md. *)
 From Coq Require Import ZArith List String Bool.
-From C13 Require Import Types Model Proofs ProofsUnused ProofsDisable ProofsExit ProofsOutput.
+From C13 Require Import Types Model Proofs ProofsUnused ProofsDisable ProofsExit ProofsOutput ProofsWatch.
 Import ListNotations.
 Open Scope list_scope.
 Open Scope Z_scope.
@@ -58,3 +58,11 @@ Definition exit_code_truth_final_stmt : Prop := forall srcloc hc snc o blockers,
   (exit_status msgs blockers = 0 <-> ~ visible_error o) /\
   (exit_status msgs blockers = 2 <-> blockers = true) /\
   (exit_status msgs blockers = 1 <-> visible_error o /\ blockers = false).
+
+(* "whether a diagnostic is reported (and what an ErrorWatcher observes) does not depend on ignore comments except through
+   is_ignored_error", for a code shape given by `reentry` (does the note attached to an admitted info go through
+   _filter_error again?).  TRUE for reentry = false (Properties.ignore_exact_with_watchers, watchers_independent_of_ignores),
+   REFUTED for reentry = true (Properties.watcher_reentry_refuted); gen/ErrorsWatch.v states which shape the source has. *)
+Definition watchers_independent_stmt (reentry : bool) : Prop := forall c c' ws E,
+  (forall i, In i E -> classify c' i = classify c i) ->
+  map wnew (wstack (run_w reentry c' ws E)) = map wnew (wstack (run_w reentry c ws E)).
